@@ -339,3 +339,21 @@ pub proof fn lemma_point2(a: BaseRegLan, r: LoopRange, w: Seq<u32>)
         assert(n == 2);
     }
 }
+
+// prefixing a one-word language by a character
+pub proof fn lemma_cat_char_word(kc: BaseRegLan, c: u32, k: BaseRegLan, t: Seq<u32>, w: Seq<u32>)
+    requires forall|v: Seq<u32>| #[trigger] lang_k(kc, v) == (v.len() == 1 && v[0] == c),
+        forall|v: Seq<u32>| #[trigger] lang_k(k, v) == (v == t),
+    ensures in_cat(kc, k, w) == (w == seq![c] + t),
+{
+    if in_cat(kc, k, w) {
+        let i = choose|i: int| #![trigger wit(i)] 0 <= i <= w.len() && wit(i) && lang_k(kc, w.subrange(0, i)) && lang_k(k, w.subrange(i, w.len() as int));
+        lemma_split(w, i);
+        assert(w.subrange(0, i) =~= seq![c]);
+    }
+    if w == seq![c] + t {
+        assert(w.subrange(0, 1) =~= seq![c]);
+        assert(w.subrange(1, w.len() as int) =~= t);
+        assert(wit(1));
+    }
+}
